@@ -2,7 +2,7 @@
    Only statements; all proof work is in Proofs/C05_Geodetic.v and Proofs/C05_Flow.v. *)
 From Coq Require Import Reals ZArith QArith List Bool String.
 From Verif Require Import Lib.Dyadic Lib.Atan2 Lib.Ival Lib.C05_Prog.
-From Verif Require Import Model.C05_Geodetic Model.C05_Flow Proofs.C05_Geodetic Proofs.C05_Flow Proofs.C05_FlowToday Proofs.C05_Table
+From Verif Require Import Model.C05_Geodetic Model.C05_Flow Proofs.C05_Geodetic Proofs.C05_Flow Proofs.C05_FlowToday Proofs.C05_Table Model.C05_Dtype Proofs.C05_Dtype
   Proofs.C05_AccDefs Proofs.C05_Accuracy.
 From Verif Require Gen.C05_EllipsoidFlow.
 From Verif Require Gen.C05_Ellipsoids.
@@ -154,6 +154,11 @@ Theorem geo_cert_tolerance : forall h tol, tol_geo h = Some tol ->
   exists q, dy_toQ h = Some q /\ ((Qle q q_100km /\ tol = q_1em6) \/ (~ Qle q q_100km /\ tol = q_2mm)).
 Proof. exact tol_geo_values. Qed.
 Print Assumptions geo_cert_tolerance.
+
+(* inputs of another dtype / container: verdict 0 means the result is, double for double, that of the float64 run *)
+Theorem check_same_sound : forall a b, check_same (a, b) = 0%Z -> a = b.
+Proof. exact check_same_sound_l. Qed.
+Print Assumptions check_same_sound.
 
 (* ---------------------------------------------------------------- ellipsoid retention *)
 (* for every table of constructor call sites that forwards everywhere, every operation list keeps the ellipsoid,
